@@ -11,7 +11,7 @@ CONSTANTS
   MaxFaults = 0
   Behaviours = {"ok"}
   Coarse = TRUE
-  Loose = FALSE
+  Loose = TRUE
 INVARIANTS TypeOK OwnDestination ExactlyOneBatch OversizeCounted BodyWithinLimit CountWithinLimit AtMostTwice Timely StopFlushes GaugeExact Conservation
 VIEW View
 CHECK_DEADLOCK FALSE
